@@ -25,3 +25,5 @@ def run(col, configs, tier):
             guarded(col, P.rule_error_units, facts)
         guarded(col, P.rule_same_base, facts)
         guarded(col, P.rule_slow_fallback, facts)
+        guarded(col, P.rule_zero_shortcircuit, facts)
+        guarded(col, P.rule_step_bounded_accumulation, facts)
